@@ -23,6 +23,7 @@ import EasyNet.Drv.Send
 import EasyNet.Drv.CancelScope
 import EasyNet.Drv.RecvProto
 import EasyNet.Drv.FlowCtl
+import EasyNet.Drv.Tls08
 open EasyNet.Drv
 
 /-- one runner per model family; each returns `none` for model names it does not know -/
@@ -42,6 +43,7 @@ def runners : List (String → List String → List String → Option (List Stri
   , runTimeout
   , runSend
   , runCancelScope
+  , runTls08
   ]
 
 def dispatch (model : String) (cfg : List String) (ops : List String) : Option (List String) :=
